@@ -36,7 +36,7 @@ META = {
 MC_INV = ["TypeOK", "Length", "NeverEndsWithoutLimit", "NotStuck", "DelayBounds", "BandNonEmpty", "IndexBounded",
           "CappedIsExact", "FollowsCurve"]
 TR_INV = ["TypeOK", "Length", "NeverEndsWithoutLimit", "DelayBounds", "BandNonEmpty", "IndexBounded"]
-WITNESSES = ["Witness_Saturated", "Witness_ZeroAttempts", "Witness_ClampMax", "Witness_ClampBase", "Witness_LongUnlimited"]
+WITNESSES = ["Saturated", "ZeroAttempts", "ClampMax", "ClampBase", "LongUnlimited"]
 DELAYS = [0, 1, 2, 5, 60]
 ATTEMPTS = [None, 0, 1, 2, 3, 64]
 CONSTS = {"Delays": set(DELAYS), "AttemptChoices": {0, 1, 2, 3, 64}, "Horizon": 70}
@@ -79,7 +79,8 @@ def att_class(a):
 
 def run(ctx):
     # ---- the specification itself
-    cfg = tlc.write_cfg(os.path.join(ctx.scratch, "Reconnect.cfg"), constants=CONSTS, invariants=MC_INV,
+    # NextW = Next plus stuttering witness probes (vacuity guard through the coverage statistics)
+    cfg = tlc.write_cfg(os.path.join(ctx.scratch, "Reconnect.cfg"), next="NextW", constants=CONSTS, invariants=MC_INV,
                         constraints=["Bounded"], deadlock=False)
     res = tlc.check_model("Reconnect", cfg, ctx.scratch, coverage=True, timeout=600)
     ctx.add_tlc(res, "exhaustive parameters x band end points")
@@ -92,12 +93,9 @@ def run(ctx):
     zero = [a for a in ("EmitAny", "Stop") if a not in cov or cov[a][1] == 0]
     if zero:
         raise tlc.MachineryError("actions never taken in the exhaustive model: %s" % zero)
-    for w in WITNESSES:
-        wcfg = tlc.write_cfg(os.path.join(ctx.scratch, w + ".cfg"), constants=CONSTS, invariants=[w],
-                             constraints=["Bounded"], deadlock=False)
-        wres = tlc.check_model("Reconnect", wcfg, ctx.scratch, timeout=600, workers=4)
-        if wres.invariant != w:
-            raise tlc.MachineryError("vacuity witness %s not reachable" % w)
+    unreached = [w for w in WITNESSES if cov.get("W_" + w, (0, 0))[1] == 0]
+    if unreached:
+        raise tlc.MachineryError("vacuity witnesses not reachable: %s" % unreached)
     ctx.note("vacuity_witnesses_reached", len(WITNESSES))
 
     # ---- code -> spec: record the real schedules
